@@ -93,11 +93,14 @@ package jrpc2
 //@   ensures[C06:floor] result >= 1
 //@   ensures[C06:option] s != nil && s.Concurrency >= 1 ==> result == s.Concurrency
 
+// wfServer(s): the fields NewServer sets and nothing ever reassigns.
+//@ pure wfServer(s *Server) Bool = s != nil && s.mux != nil && s.sem != nil && s.log != nil && s.rpcLog != nil && s.newctx != nil && s.mu != nil && s.used != nil && s.call != nil
+
 // invoke brackets the one handler call between a successful Acquire(ctx, 1)
 // and the matching Release(1); a waiter whose Acquire fails is answered with
 // that error and its handler never runs.
 //@ func (*Server).invoke
-//@   requires s.sem != nil && s.rpcLog != nil && h != nil && req != nil && base != nil
+//@   requires wfServer(s) && h != nil && req != nil && base != nil
 //@   modifies handlerRuns
 //@   at call.h#1 assert[C06:holds-slot] semHeld(s.sem) == old(semHeld(s.sem)) + 1
 //@   at call.h#1 assert[C17:server-in-ctx] ctxValue(arg0, boxof(0, "jrpc2.serverKey")) == boxof(s, "*jrpc2.Server")
@@ -156,7 +159,7 @@ package jrpc2
 // such name has no handler. All other names (and, with built-ins disabled, all
 // names) go to the assigner unchanged.
 //@ func (*Server).assignLocked
-//@   requires s.mux != nil
+//@   requires wfServer(s)
 //@   modifies assignCalls
 //@   ensures[C17:reserved] s.builtin && rpcPrefix(name) && name != "rpc.serverInfo" ==> result == nil
 //@   ensures[C17:serverinfo] s.builtin && name == "rpc.serverInfo" ==> result != nil
@@ -175,7 +178,7 @@ package jrpc2
 // setContext attaches to t a context that carries the inbound request, and for
 // a request with an id reserves that id under the cancel function of t's context.
 //@ func (*Server).setContext
-//@   requires held(s.mu) && t != nil && s.newctx != nil && s.used != nil
+//@   requires wfServer(s) && held(s.mu) && t != nil
 //@   modifies t.ctx, map(s.used)
 //@   ensures[C17:inbound-in-ctx] t.ctx != nil && ctxValue(t.ctx, boxof(0, "jrpc2.inboundRequestKey")) == boxof(t.hreq, "*jrpc2.Request")
 //@   ensures[C07:reserved] id != "" ==> in(s.used, id) && lookup(s.used, id) == cancelOf(t.ctx) && lookup(s.used, id) != nil && !fired(lookup(s.used, id))
